@@ -1,6 +1,9 @@
 use num::pow::Pow;
 
-use crate::generator::error::{GeneratorError, GeneratorErrorType};
+use crate::{
+    common::INTERNAL_EXTENSION_GROUP_NAME_PREFIX,
+    generator::error::{GeneratorError, GeneratorErrorType},
+};
 
 use super::{
     types::{BitString, Choice, Optionality, SequenceOrSet},
@@ -80,7 +83,10 @@ pub fn format_sequence_or_set_members(se: &SequenceOrSet, implied: bool) -> Stri
             .map(|m| format!(
                 r#"{}{}: {},"#,
                 to_jer_identifier(&m.name),
-                if m.optionality != Optionality::Required {
+                // an extension addition group is present as a whole or not at all
+                if m.optionality != Optionality::Required
+                    || m.name.starts_with(INTERNAL_EXTENSION_GROUP_NAME_PREFIX)
+                {
                     "?"
                 } else {
                     ""
